@@ -45,7 +45,8 @@ PROBES = ['server:after-banner', 'server:after-command', 'server:mid-line',
           'client:banner', 'client:ehlo', 'client:mail', 'client:rcpt',
           'client:data', 'client:eod', 'client:quit', 'client:starttls',
           'client:tls-immediately', 'client:trickle', 'client:partial-reply',
-          'client:pipe', 'client:pipe-slow', 'client:http', 'client:lmtp',
+          'client:pipe', 'client:pipe-slow', 'client:http',
+          'client:http-body-stall', 'client:lmtp',
           'client:reuse',
           'client:idle-partial']
 STATES_MEASURE = 'distinct (side, relay kind, stage, stall shape, pipelining) tuples'
@@ -87,6 +88,8 @@ def generate(seed, tier='quick'):
                     'idx': rng.randrange(3),
                     'reuse': rng.random() < 0.3,
                     'gap': rng.choice([1.0, 2.5])})
+        if kind == 'http':
+            scn['http_body_stall'] = rng.random() < 0.4
         if kind == 'pipe':
             scn['pipe_mode'] = rng.choice(['one-hang', 'all-hang', 'slow'])
             scn['nr'] = rng.randint(1, 4)
@@ -354,6 +357,15 @@ def _client(world, scn, result):
         a = dict(act)
         if shape == 'trickle':
             a = {'act': 'partial'}
+        if scn.get('http_body_stall') and stage != 'connect':
+            # complete status line and headers, silence inside the body; a
+            # second attempt on the same bounded pool must not be held by
+            # the first one's connection
+            a = {'act': 'body-stall', 'status': 200,
+                 'reply_header': '250 2.6.0 ok'}
+            rs['pool_size'] = 1
+            attempts.append({'tag': 'a1', 'rcpts': ['r1.0@d.example']})
+            world.probe('client:http-body-stall')
         rs['http_by_tag'] = {'a0': a}
         if stage == 'connect':
             rs['connect_plan'] = [{'act': 'hang'}]
@@ -378,6 +390,18 @@ def _client(world, scn, result):
         budget = bound_stage + cleanup + 300.0
         ok = world.wait(g, budget)
         t1 = world.loop._now
+        if att['tag'] == 'a1':
+            # the attempt after the stalled one
+            if not ok or (t1 - t0) > bound_stage + cleanup + 1.0:
+                _bad(result, 'C14/attempt-held',
+                     'the attempt made after the stalled one %s (bound '
+                     '%.0f s): the first connection still holds the pool; '
+                     'blocked at %s' % (
+                         'is still blocked after %.0f s' % (t1 - t0) if not ok
+                         else 'took %.1f s' % (t1 - t0), bound_stage,
+                         world.blocked_report(4)),
+                     kind=kind, stage='after-body-stall')
+            return
         if att['tag'] != 'a0':
             gevent.sleep(3.0 if stage == 'idle-partial' else 0.2)
             continue
@@ -411,7 +435,8 @@ def _client(world, scn, result):
                 else list(res['per'])
             reported = 'temp' if 'temp' in vals else (
                 'perm' if 'perm' in vals else 'ok')
-        if stage in ('quit',):
+        if stage in ('quit',) or len(attempts) > 1 and \
+                attempts[-1]['tag'] == 'a1':
             continue            # the message had been accepted already
         if stage == 'starttls' and not rs.get('tls_required') and \
                 shape != 'stall':
